@@ -51,7 +51,8 @@ def run(ctx, spec):
 
 PROPS = {"C09": dict(
     lean_modules=["Vore.Props.C09"],
-    theorems=["Vore.C09_no_panic_callfree", "Vore.C09_no_panic_guarded", "Vore.C09_empty_input", "Vore.C09_empty_body", "Vore.C09_empty_backref_at_eof"],
+    theorems=["Vore.C09_no_panic_callfree", "Vore.C09_no_panic_guarded", "Vore.C09_replacements_never_panic", "Vore.C09_replace_command_no_panic",
+              "Vore.C09_replacements_panic_only_div_zero", "Vore.C09_empty_input", "Vore.C09_empty_body", "Vore.C09_empty_backref_at_eof"],
     run=run,
     manifest=dict(
         text="In the model every Go panic site is an outcome; proved in Lean: for every call-free find command and every "
@@ -60,8 +61,12 @@ PROPS = {"C09": dict(
              "instruction list (C09_empty_input, C09_empty_body); an empty back-reference succeeds without reading "
              "(C09_empty_backref_at_eof); with subroutines, recursion and global patterns whose predicates evaluate, every "
              "program without unguarded recursion returns .ok on every input under every amount clause "
-             "(C09_no_panic_guarded, from C10_terminates_guarded_source). PARTIAL: process code (transforms, predicates) is "
-             "covered by C12's type soundness under its single-type hypothesis, not here; named loops are outside the "
+             "(C09_no_panic_guarded, from C10_terminates_guarded_source). Replace commands: a with list "
+             "without transforms can never make a command fail (C09_replacements_never_panic, C09_replace_command_no_panic); "
+             "with transforms that the checker accepts and that keep each variable at one type, the ONLY possible panic is "
+             "Go's integer division by zero, the recorded finding (C09_replacements_panic_only_div_zero, from C12_sound and "
+             "the fact that executeReplaceProcess's environment satisfies the checker's assumptions). PARTIAL: predicates of "
+             "global patterns are covered by C12's soundness alone; named loops are outside the "
              "resolved language. Correspondence/search: every accepted generated program over all constructs "
              "is run on the real engine on texts ending inside constructs; any panic/hang is a violation keyed by its "
              "message; file inputs (empty file, sizes around the buffer) are exercised by C06/C07.",
